@@ -96,12 +96,16 @@ func c12Setup() {
 	xfer.Reg(c12gz)
 }
 
-var c12mode = flag.String("mode", "pipe", "pipe|live")
+var c12mode = flag.String("mode", "pipe", "pipe|live|protos")
 
 func main() {
 	cfg := ParseFlags()
 	if *c12mode == "live" {
 		runC12Live(cfg)
+		return
+	}
+	if *c12mode == "protos" {
+		runC12Protos(cfg)
 		return
 	}
 	runC12(cfg)
